@@ -178,6 +178,9 @@ func (r *MetricRegistry) RegisterDistribution(
 		ID = strings.TrimPrefix(ID, ".")
 	}
 
+	r.mu.Lock()
+	defer r.mu.Unlock()
+
 	// only add once
 	if l, ok := r.registeredListeners[ID]; ok {
 		return l
@@ -201,6 +204,9 @@ func (r *MetricRegistry) RegisterTiming(
 		ID = strings.TrimPrefix(ID, ".")
 	}
 
+	r.mu.Lock()
+	defer r.mu.Unlock()
+
 	// only add once
 	if l, ok := r.registeredListeners[ID]; ok {
 		return l
@@ -223,6 +229,9 @@ func (r *MetricRegistry) RegisterCount(
 	if strings.HasPrefix(ID, ".") {
 		ID = strings.TrimPrefix(ID, ".")
 	}
+
+	r.mu.Lock()
+	defer r.mu.Unlock()
 
 	// only add once
 	if l, ok := r.registeredListeners[ID]; ok {
